@@ -156,7 +156,7 @@ def tlc(module, cfg, files=None, workers=None, heap="2g", timeout=1800, extra=No
                 shutil.copy(path, dst)
     meta = os.path.join(wd, "meta")
     cmd = ["java", "-XX:+UseParallelGC", "-XX:ParallelGCThreads=4", "-Xss256m",
-           "-Xms256m", "-Xmx" + heap]
+           "-Xms256m", "-Xmx" + heap, "-Djava.io.tmpdir=" + wd]     # SANY's temp directories go with the scratch copy
     for k, v in (defines or {}).items():
         cmd.append("-D%s=%s" % (k, v))
     cmd += ["-cp", TLAJAR, "tlc2.TLC", "-workers", str(workers or NCPU), "-metadir", meta,
